@@ -220,6 +220,12 @@ def run(tier, seed, replay_path=None):
             extra.append({"lines": [{"r": rng.randint(1, 5), "ph": rng.random() < 0.4} for _ in range(n)],
                           "opt": {"model": rng.random() < 0.5, "kw": rng.random() < 0.5, "asc": rng.random() < 0.5,
                                   "norm": rng.random() < 0.3, "scale": rng.choice(["none", "none", "one", "frac", "frac", "zero", "neg", "big", "nan"])}})
+        # long tables: two-digit line counts and more distinct values than any enumerated one
+        for _ in range(300 if deep else 40):
+            n = rng.randint(9, 30)
+            extra.append({"lines": [{"r": rng.randint(1, 15), "ph": rng.random() < 0.4} for _ in range(n)],
+                          "opt": {"model": rng.random() < 0.5, "kw": rng.random() < 0.5, "asc": rng.random() < 0.5,
+                                  "norm": rng.random() < 0.3, "scale": rng.choice(["none", "none", "one", "frac", "frac", "zero", "big"])}})
         # tables whose branching fractions sum to one within 1e-6 but not exactly: normalising is *not* the identity
         for j in range(400 if deep else 60):
             sp = list(rng.choice(NEAR_ONE))
